@@ -16,6 +16,9 @@ Inductive cond :=
 | COr (a b : cond)
 | CNot (a : cond).
 
+(* guard of a literal #include line of a base.j2: none, `if nunavut.support.omit`, `if not nunavut.support.omit` *)
+Inductive lit_guard := LAlways | LOmitOnly | LSerOnly.
+
 (* f"{n}" for a non-negative integer *)
 Fixpoint dec_fuel (fuel : nat) (n : N) (acc : str) : str :=
   match fuel with
